@@ -13,5 +13,5 @@ def _oracle(S, b, trace):
     return out
 
 
-K = Kit("C06", _oracle, streams=(("structured", 0.42), ("contention", 0.42), ("pairs", 0.16)))
+K = Kit("C06", _oracle, streams=(("structured", 0.38), ("contention", 0.38), ("pairs", 0.14), ("gates", 0.10)))
 eval_case, run, replay = K.eval_case, K.run, K.replay
